@@ -20,8 +20,19 @@ pub struct Start {
 }
 
 impl Start {
+    /// adjacent text nodes exist although consolidation is on now: consolidation was off at some time
+    pub fn is_mixed(&self) -> bool {
+        self.adjacent_text && self.consolidation
+    }
+}
+
+impl Start {
     pub fn world(&self) -> World {
         let mut w = World::from_forest(&self.forest, self.adjacent_text);
+        if self.adjacent_text {
+            // built with consolidation switched off
+            w.ever_off = true;
+        }
         for i in &self.parse {
             w.apply(&Op::Parse(*i));
         }
